@@ -236,7 +236,7 @@ fn tmin(a: Option<u64>, b: Option<u64>) -> Option<u64> { match (a, b) { (None, x
 
 impl World {
     fn new(o: &Shared, trace: String, accepting: bool, naddr: usize, seed: u64, r: &mut Rng) -> World {
-        o.lock().unwrap().case(&format!("{}\tnew\t{}", trace, accepting as u8), "ok", "");
+        o.lock().unwrap().case(&format!("net\t{}\tnew\t{}", trace, accepting as u8), "ok", "");
         World {
             trace, accepting, now: 0,
             net: if accepting { Net::server() } else { Net::client() },
@@ -278,7 +278,7 @@ impl World {
         self.steps += 1;
         if let L::Clock(dt) = l {
             self.now += dt;
-            o.lock().unwrap().case(&format!("{}\tclock\t{}", self.trace, self.now), "ok", "");
+            o.lock().unwrap().case(&format!("net\t{}\tclock\t{}", self.trace, self.now), "ok", "");
             return;
         }
         let rnd = self.draw_rnd();
@@ -308,7 +308,7 @@ impl World {
             L::Clock(_) => unreachable!(),
         };
         if !valid { self.contract = false; }
-        let case_line = format!("{}\t{}", self.trace, case_op);
+        let case_line = format!("net\t{}\t{}", self.trace, case_op);
         // ---- the real endpoint, under the watchdog
         *CURRENT.lock().unwrap() = Some((case_line.clone(), self.trace.clone(),
             format!("C20 step {}: Net::{} did not return within 8 s", self.steps, opname)));
@@ -500,11 +500,11 @@ impl World {
         }
 
         // ---- result line (abstract datagrams: parsed by the real reader with the sender's token mode)
-        let mut og = o.lock().unwrap();
-        let og = &mut *og;
+        let mut guard_ = o.lock().unwrap();
+        let og = &mut *guard_;
         let sent_txt: Vec<String> = out.sent.iter().map(|(a, d)| {
             let a_ = *a as usize;
-            let h = if a_ < na { sent_hint(before_fp[a_].as_deref(), after_fp[a_].as_deref()) } else { Some(false) };
+            let h = if let L::Connect(_) = l { Some(true) } else if a_ < na { sent_hint(before_fp[a_].as_deref(), after_fp[a_].as_deref()) } else { Some(false) };
             match dgram6(d, h) { Some(t) => format!("{}>{}", a, t), None => format!("{}>unreadable:{}", a, hex(d)) }
         }).collect();
         let dash = |v: &Vec<String>| if v.is_empty() { "-".to_string() } else { v.join(",") };
@@ -525,7 +525,8 @@ impl World {
             og.check(!self.contract, "-", &self.trace, || format!("C20 step {}: Net::{} panicked inside the API contract: {} (label {:?}, shadow state {})", self.steps, opname, out.res, short(l), sb));
             return;
         }
-        if !self.contract { self.route(out.sent); return; }
+        // outside the API contract only the model comparison of the offending call applies; the history ends here
+        if !self.contract { self.dead = true; return; }
 
         // ---- compare with the shadows
         let steps = self.steps;
@@ -566,7 +567,7 @@ impl World {
                 og.check(!live_after.contains(&p), "-", &self.trace, || format!("C20 gone_after_disconnect step {}: pid {} still live after its Disconnect event", steps, p));
             }
         }
-        drop(og);
+        drop(guard_);
         self.route(out.sent);
     }
     fn route(&mut self, sent: Vec<(u8, Vec<u8>)>) {
